@@ -48,6 +48,32 @@ def rep(o, r=None, **kw):
     return d
 
 
+def blame(o, flag, init):
+    """the rule application after which the checker's flag (shape / glue) turned false and stayed false until the
+    end of the run; "normalisers" for the pass after phase 1; None when it holds at the end or never held"""
+    marks = {}
+    for m in o.get("marks", []):
+        marks.setdefault(m["after_record"], []).append(m)
+    state, who = o.get(init, True), None
+    recs = o["records"]
+    for i in range(len(recs) + 1):
+        for m in marks.get(i, []):
+            v = m[flag]
+            if state and not v:
+                who = "normalisers" if m["norm"] == "1" else who
+            if v:
+                who = None
+            state = v
+        if i < len(recs) and flag in recs[i]:
+            v = recs[i][flag]
+            if state and not v:
+                who = recs[i]["rule"]
+            if v:
+                who = None
+            state = v
+    return who
+
+
 def common_ties(ck, data, pid):
     """the correspondence every trace-based property rests on: the update model reproduces every observed list"""
     n = 0
